@@ -1190,7 +1190,9 @@ class Mps(MatrixProduct):
                             return func(0, y)
                         
                         if self.evolve_config.ivp_solver == "krylov":
-                            ms, Lanczos_vectors = expm_krylov(func1, evolve_dt, mps[imps].ravel().array)
+                            # `expm_krylov` assumes a Hermitian operator: pass H_eff itself and
+                            # move the factor 1/coef (1/1j in real time) into the time step
+                            ms, Lanczos_vectors = expm_krylov(lambda y: func1(y) * coef, evolve_dt / coef, mps[imps].ravel().array)
                             logger.debug(f"# of Lanczos_vectors, {Lanczos_vectors}")
                         else:
                             sol = solve_ivp(lambda t, y: func1(y), 
